@@ -155,6 +155,9 @@ pub fn render(v: &Val, ctx: &mut Ctx) -> TokenStream {
         Val::Str(s) => std::iter::once(TokenTree::Literal(Literal::string(s))).collect(),
         Val::Bool(b) => std::iter::once(ident(if *b { "true" } else { "false" })).collect(),
         Val::Enum { ty, var, args } if ty == "Result" && var == "Ok" && args.len() == 1 => render(&args[0], ctx),
+        // `Option<T: ToTokens>` interpolates as its payload, or as nothing
+        Val::Enum { ty, var, args } if ty == "Option" && var == "Some" && args.len() == 1 => render(&args[0], ctx),
+        Val::Enum { ty, var, .. } if ty == "Option" && var == "None" => TokenStream::new(),
         Val::Opaque { what, deps } => {
             if what == "format_ident" { return std::iter::once(ident(&fmt(deps, ctx))).collect(); }
             if let Some(n) = what.strip_prefix("tuple.") {
